@@ -20,11 +20,11 @@ META = dict(
                        'gzipNewReader / xzNewReader / lzmaNewReader / bzipNewReader / zstdNewReader', 'the package initialiser (decoder table)', '(*Deb).Close', 'Control.SourceName',
                        'control.Unmarshal into deb.Control (reflect model)', 'the ar reader of C13', 'bufio.Reader', 'path.Clean', 'filepath.Ext'],
     stubs=['codecs: each decoder accepts exactly the tagged container of its own extension and fails on any other stream (engine/symgo/archmodel.py); archive/tar: an abstract entry list parsed when the reader is created, Read may return one short read; a gzip stream may consist of two members, of which a reader with Multistream(false) delivers the first only',
-           'the harness helpers verifTar / verifCompress are real (archive/tar, gzip, zstd writers) in native runs'],
+           'the harness helpers verifTar / verifCompress are real in native runs: archive/tar, gzip and zstd writers in Go, xz / lzma / bzip2 streams written by the tooling Python (lzma, bz2 modules) - the translator validation therefore runs the library with its real third-party decoders on all six encodings'],
     bounds={'quick': 'all 6 x 6 combinations of control/data encodings; ./control first, second or last in its tarball, named ./control or control; extra ar members: none, one between control and data, one behind the data member, or both; control paragraph with symbolic Package, Version, Architecture, Maintainer, Section, Depends, Description leaves (1-2 characters); two data files with symbolic names and contents; debian-binary 2.0 and four other values; gzip tarballs made of two gzip members; each required member (and the control file inside the tarball) missing in turn',
             'thorough': 'leaves up to 3 characters for every encoding pair'},
     outside_claim=['real gzip / bzip2 / xz / lzma / zstd decoding and real archive/tar parsing (tens of thousands of lines with tables, unsafe and assembly: uninterpreted), hence also interoperability with packages built by dpkg-deb',
-                   'native replay exists for the uncompressed, .gz and .zst encodings only (no writers for the others in the sandbox)'],
+                   ],
     assumptions=['codec contract: D_ext(container_ext(x)) = x, D_ext fails on other streams'])
 
 
@@ -101,17 +101,11 @@ def run_job(env, job):
 
 
 def replay_args(c):
-    # no native writers for .xz / .bz2 / .lzma in the sandbox: replay such counterexamples with gzip in their place
     a = list(c['args'])
     if c['func'] == 'VerifC14Load':
-        for i in (0, 1):
-            if bytes(a[i]) not in NATIVE_EXTS:
-                a[i] = b'.gz'
         if bytes(a[0]) == b'.gz' and a[2] >= 1:
             a[12] = 30720 if a[2] == 1 else 29696      # the tar body of ./control then starts at offset 32256
             a[4] = b'X-Pad: ' + b'p' * 900 + b'\n' + bytes(a[4])   # an unknown field in front: the known fields now run across the 32 KiB mark      # pad the file in front of ./control so that it straddles a gzip block: a real short read
-    elif c['func'] == 'VerifC14Missing' and bytes(a[1]) not in NATIVE_EXTS:
-        a[1] = b'.gz'
     return a
 
 
@@ -119,7 +113,8 @@ def validation_calls(env, seed):
     ctl = b'Package: p\nSource: s\nVersion: 1.0-1\nArchitecture: amd64\nMaintainer: M <m@x>\nInstalled-Size: 12\nMulti-Arch: same\nDepends: a (>= 1), b | c\nSection: x\nPriority: y\nHomepage: h\nDescription: d\n more\n'
     exp = b'Package=p\x00Source=s\x00Version=1.0-1\x00Arch=gnu/linux/amd64\x00Maintainer=M <m@x>\x00InstalledSize=12\x00MultiArch=same\x00Depends=a (>= 1), b | c\x00Section=x\x00Priority=y\x00Homepage=h\x00Description=d\nmore\x00SourceName()=s\x00'
     calls = []
-    for ce, de, pos, cn, extra in ((b'', b'', 0, b'./control', 0), (b'.gz', b'.zst', 1, b'control', 1), (b'.zst', b'.gz', 2, b'./control', 2), (b'', b'.gz', 0, b'control', 3)):
+    for ce, de, pos, cn, extra in ((b'', b'', 0, b'./control', 0), (b'.gz', b'.zst', 1, b'control', 1), (b'.zst', b'.gz', 2, b'./control', 2), (b'', b'.gz', 0, b'control', 3),
+                                   (b'.xz', b'.bz2', 1, b'./control', 0), (b'.lzma', b'.xz', 0, b'control', 2), (b'.bz2', b'.lzma', 2, b'./control', 1)):
         calls.append(('VerifC14Load', [ce, de, pos, cn, ctl, exp, b'./usr/x', b'hi', b'./etc/yy', b'', extra, b'2.0\n', 0, 0]))
     calls.append(('VerifC14Load', [b'', b'', 0, b'./control', ctl, exp, b'./usr/x', b'hi', b'./etc/yy', b'', 0, b'3.0\n', 0, 0]))
     for ce, de, split in ((b'.gz', b'.gz', 10), (b'.gz', b'', 30), (b'', b'.gz', 1024)):
